@@ -283,7 +283,16 @@ pub fn gen_op(rng: &mut Rng, s: &Snap, former_admins: &[String]) -> (String, Op)
             },
         },
         2 => Op::AddHook {
-            addr: if rng.chance(1, 25) { rng.pick_cloned(&p.invalid) } else { rng.pick_cloned(hp) },
+            addr: if rng.chance(1, 25) {
+                rng.pick_cloned(&p.invalid)
+            } else {
+                // the hook contracts, and the admin itself (an admin contract may listen to its own group)
+                let mut cands: Vec<String> = hp.clone();
+                if let Some(a) = &s.admin {
+                    cands.push(a.clone());
+                }
+                rng.pick_cloned(&cands)
+            },
         },
         _ => Op::RemoveHook {
             addr: if !s.hooks.is_empty() && rng.chance(3, 4) { rng.pick_cloned(&s.hooks) } else { rng.pick_cloned(hp) },
